@@ -322,7 +322,7 @@ class RunView:
         snaps = self.rec["snaps"]
         # expected "gone" notices
         gone = collections.defaultdict(list)
-        regular = [sn for sn in snaps if not sn.get("probe")]
+        regular = [sn for sn in snaps if not sn.get("probe") and not sn.get("final")]
         for prev, cur in zip(regular, regular[1:]):
             if not (prev["quiesced"] and cur["quiesced"]):
                 continue
